@@ -210,5 +210,9 @@ def check(ctx):
         ctx.floor("C04.W", "raw element write sites outside closures (%s)" % cfg, w, 1)
         fw = check_finish_window(ctx, cfg)
         ctx.floor("C04.F", "finish-to-assume_init windows (%s)" % cfg, fw, 1)
+        # raw reads outside protocol closures / loops (a hand-written index loop in a method of an owner): the duplicate must be disowned
+        # before the caller's code can run (shared rule, stated in c05)
+        from . import c05
+        c05.check_duplicate_window(ctx, cfg, rule="C04.Y")
         l = check_extend_callers(ctx, cfg)
         ctx.floor("C04.L", "owner-liveness obligations at foreign calls (%s)" % cfg, l, 1)
